@@ -46,7 +46,7 @@ NESTED = {"E0": "E0", "E1": "E01", "E2": "E012", "P0": "E0", "P1": "E01", "C": "
 
 
 @st.composite
-def cases(draw):
+def cases(draw, salt=0):
     wl = draw(G.workloads(shapes=("chain2", "chain2", "chain2", "elementwise2", "matmul", "chain3", "diamond"),
                           bound_pool=[1, 2, 2, 3, 4, 6], max_ops=200))
     if wl["shape"] in ("chain3", "diamond"):
@@ -85,8 +85,9 @@ def cases(draw):
     d["einsums"] = [dict(e) for e in d["einsums"]]
     if draw(st.integers(0, 3)) == 0:
         draw(st.sampled_from(d["einsums"]))["n_instances"] = draw(st.sampled_from([2, 3]))
-    d["mapper"] = {"metrics": draw(st.sampled_from(["ENERGY|LATENCY|RESOURCE_USAGE"] * 4 + ["ENERGY|LATENCY"] * 3
-                                                   + ["ENERGY", "LATENCY", "ENERGY_DELAY_PRODUCT"]))}
+    pool = ["ENERGY|LATENCY|RESOURCE_USAGE", "ENERGY|LATENCY", "ENERGY|LATENCY|RESOURCE_USAGE", "ENERGY", "ENERGY|LATENCY",
+            "LATENCY", "ENERGY|LATENCY|RESOURCE_USAGE", "ENERGY_DELAY_PRODUCT"]
+    d["mapper"] = {"metrics": draw(st.sampled_from(pool[salt % len(pool):] + pool[:salt % len(pool)]))}
     d["names"] = draw(st.sampled_from(["plain", "plain", "nested"]))
     return d
 
@@ -336,7 +337,7 @@ def run_shard(shard, col):
     import os
 
     # VF_NO_SHRINK=1 (mutation experiments only): skip Hypothesis shrinking, each step of which is a mapper run
-    drive(cases(), check, n=shard["n"], seed=hash32(shard["seed"], "C28", shard["k"]), col=col,
+    drive(cases(shard["k"] + hash32(shard["seed"], "C28salt") % 8), check, n=shard["n"], seed=hash32(shard["seed"], "C28", shard["k"]), col=col,
           shrink=os.environ.get("VF_NO_SHRINK") != "1")
 
 
